@@ -50,9 +50,12 @@ def check_intersect(emb, a, b, order):
     ids_a = [id(x) for x in A]
     try:
         out = filter_period_intersect(A, B)
+        again = filter_period_intersect(A, B)
     except Exception as e:
         return [("intersect-raised", f"{type(e).__name__}: {e}")]
     probs = []
+    if snap(out) != snap(again):
+        probs.append(("intersect-second-call-differs", "same lists, different result the second time"))
     if snap(A) != A0 or snap(B) != B0 or [id(x) for x in A] != ids_a:
         probs.append(("intersect-input-modified", f"inputs after call: {snap(A)} / {snap(B)}"))
     want = collections.Counter()
